@@ -124,6 +124,9 @@ def parse_oracle(out):
     return fails, stats
 
 
+EXTRA_PROPS = [("Properties/C09Load.v", "pins/C09Load.json")]
+
+
 def known_class(f):
     """key of the known-finding class an oracle FAIL line belongs to (matched narrowly), or None"""
     if f["kind"] == "c11-load" and " R ERR InvalidFileMerge " in f["line"]:
@@ -379,6 +382,15 @@ def run(tier, seed, replay_obj=None):
         ctx.oblige("coq:build-closure", True)
         lib.coq_hygiene(ctx, lib.closure_of("Properties/C09.vo"))
         lib.check_theorems(ctx, "Properties/C09.v", "pins/C09.json")
+        # the theorems that use the real parser state (closure: + the Xml development) live in a property file of their own
+        for (xf, xpins) in EXTRA_PROPS:
+            ok2, out2, dt2 = lib.coq_make([xf + "o"])
+            if not ok2:
+                ctx.oblige("coq:build-closure(%s)" % xf, False, "failed files: %s\n%s" % (lib.coq_failed_files(out2), out2[-1200:]))
+            else:
+                ctx.oblige("coq:build-closure(%s)" % xf, True)
+                lib.coq_hygiene(ctx, lib.closure_of(xf + "o"))
+                lib.check_theorems(ctx, xf, xpins)
     ctx.log("coq done (%.0fs)" % dt)
 
     avh = lib.harness_build(ctx)
